@@ -395,6 +395,7 @@ class State(object):
         self.trace = []
         self.inlined = set()
         self.used_contracts = set()
+        self.modelled = set()
 
     def fresh_int(self, hint='v'):
         return Sym(z3.Int('%s!%d' % (hint, next(self.n))))
@@ -534,6 +535,8 @@ class Interp(object):
     def call(self, f, args, kwargs=None, node=None, frame=None):
         kwargs = kwargs or {}
         if isinstance(f, Builtin):
+            if '(' in f.name:           # stubs / ghost models carry an explanation in parentheses
+                self.st.modelled.add(f.name)
             return f.fn(self, args, kwargs)
         if isinstance(f, ContractCall):
             return f.contract.apply(self, f.selfobj, args, kwargs)
@@ -541,6 +544,7 @@ class Interp(object):
             c = self._contract_for(f.func)
             if c is not None:
                 return c.apply(self, f.obj, args, kwargs)
+            self.st.inlined.add(f.func.qualname)
             return self.call_function(f.func, args, kwargs, selfobj=f.obj)
         if isinstance(f, FuncVal):
             c = self._contract_for(f)
@@ -568,6 +572,7 @@ class Interp(object):
     def construct(self, cv, args, kwargs):
         h = self.hooks.get('construct:' + cv.name)
         if h is not None:
+            self.st.modelled.add('constructor ' + cv.name)
             return h(self, args, kwargs)
         raise Unsupported('constructor %s(...) not modelled' % cv.name)
 
@@ -1920,7 +1925,7 @@ def explore(run_path, max_paths=400, solver_timeout=3000):
     Returns (list of VCs over all paths, stats)."""
     worklist = [[]]
     vcs = []
-    stats = dict(paths=0, infeasible=0, inlined=set(), contracts=set())
+    stats = dict(paths=0, infeasible=0, inlined=set(), contracts=set(), modelled=set())
     while worklist:
         prefix = worklist.pop()
         st = State(prefix, worklist, solver_timeout)
@@ -1934,6 +1939,7 @@ def explore(run_path, max_paths=400, solver_timeout=3000):
         stats['paths'] += 1
         stats['inlined'] |= st.inlined
         stats['contracts'] |= st.used_contracts
+        stats['modelled'] |= st.modelled
         for v in st.vcs:
             v.name = '%s@p%d' % (v.name, stats['paths'])
         vcs.extend(st.vcs)
